@@ -1,6 +1,6 @@
 package helpers
 
-import "fmt"
+import "reflect"
 
 // IsTruthy converts a value to boolean following Vue semantics.
 // For bound attributes, false values should not render the attribute.
@@ -14,11 +14,18 @@ func IsTruthy(val any) bool {
 			return false
 		}
 		return true
-	case int, int64, float64:
-		return fmt.Sprintf("%v", b) != "0"
 	case nil:
 		return false
 	default:
+		rv := reflect.ValueOf(val)
+		switch rv.Kind() {
+		case reflect.Int, reflect.Int8, reflect.Int16, reflect.Int32, reflect.Int64:
+			return rv.Int() != 0
+		case reflect.Uint, reflect.Uint8, reflect.Uint16, reflect.Uint32, reflect.Uint64, reflect.Uintptr:
+			return rv.Uint() != 0
+		case reflect.Float32, reflect.Float64:
+			return rv.Float() != 0
+		}
 		return true
 	}
 }
